@@ -95,8 +95,8 @@ def rand_delta3(rng):
     return [rng.uniform(-2, 2) for _ in range(3)] + [x / an * n for x in ax]
 
 
-SE2_OPS = ["construct", "compose", "compose", "ominus", "ominus", "inverse", "boxplus", "boxplus", "iadd", "copy", "matrix", "matrix_product", "matrix_product", "via_disk", "optimize_chain"]
-SE3_OPS = ["construct", "compose", "compose", "compose", "ominus", "ominus", "inverse", "inverse", "boxplus", "boxplus", "iadd", "copy", "normalize", "via_disk",
+SE2_OPS = ["identity", "construct", "compose", "compose", "ominus", "ominus", "inverse", "boxplus", "boxplus", "iadd", "copy", "matrix", "matrix_product", "matrix_product", "via_disk", "optimize_chain"]
+SE3_OPS = ["identity", "construct", "compose", "compose", "compose", "ominus", "ominus", "inverse", "inverse", "boxplus", "boxplus", "iadd", "copy", "normalize", "via_disk",
            "optimize_chain", "construct_nonunit", "normalize_inplace", "normalize_inplace"]
 
 
@@ -139,7 +139,7 @@ class C11(OptEngineBase):
     PROBES = [
         "angle_eq_pi_returned", "angle_near_minus_pi", "big_angle", "boxplus_norm_gt1_branch", "boxplus_norm_eq1", "w_negative", "w_zero",
         "wild_step_applied", "chain_ge_1e4", "via_disk", "optimize_se2", "optimize_se3", "optimize_nonfinite_skipped", "normalize_checked",
-        "chain_ge_1000", "auto_renormalized", "nonunit_constructed", "normalize_inplace", "unclaimed_nonunit_operand", "matrix_product", "matrix_inverse_product", "angle_given_as_float32",
+        "chain_ge_1000", "auto_renormalized", "nonunit_constructed", "normalize_inplace", "unclaimed_nonunit_operand", "matrix_product", "matrix_inverse_product", "angle_given_as_float32", "identity_constructed", "identity_object_as_vertex_pose", "increment_buffer_reused", "operand_type_refused",
     ]
 
     def sample_view(self, case):
@@ -190,6 +190,9 @@ class C11(OptEngineBase):
                     o["d"] = fxl(rand_delta3(rng))
                 if op == "iadd" and rng.random() < 0.5:
                     o["with_pose"] = True
+                # how the increment is handed over: a fresh array, the caller's reused buffer (refilled in place),
+                # or a plain list / tuple (the library may refuse those; it must not produce an invalid pose)
+                o["dkind"] = rng.choice(["fresh", "fresh", "buffer", "buffer", "list", "tuple"])
             elif op == "via_disk":
                 o["as"] = rng.choice(["vertex", "vertex", "param", "measurement"])
             elif op == "optimize_chain":
@@ -198,6 +201,7 @@ class C11(OptEngineBase):
                 o["slots"] = [rng.randrange(POOL) for _ in range(n)]
                 o["iters"] = rng.choice([1, 2, 3, 5, 10, 20, 50]) if heavy <= 6 else rng.choice([1, 2, 3])
                 o["noise"] = rng.choice([0.0, 0.01, 0.3])
+                o["identity_vertex"] = rng.random() < 0.35
                 mode = rng.choice(["pass", "stall", "wild", "wild"])
                 o["solver"] = mode
                 if mode != "pass":
@@ -295,6 +299,19 @@ class C11(OptEngineBase):
                     res.probe("w_zero")
                 return True
 
+            buf2 = np.zeros(3, dtype=np.float64)  # the caller's reused increment buffers
+            buf3 = np.zeros(6, dtype=np.float64)
+
+            def operand(dvals, dkind, buf):
+                if dkind == "buffer":
+                    buf[:] = dvals
+                    return buf
+                if dkind == "list":
+                    return [float(v) for v in dvals]
+                if dkind == "tuple":
+                    return tuple(float(v) for v in dvals)
+                return np.array(dvals, dtype=np.float64)
+
             n_done = 0
             for i, op in enumerate(ops):
                 w.begin_op(i)
@@ -309,7 +326,16 @@ class C11(OptEngineBase):
                     Ea, Ba = m2[a]
                     Eb, Bb = m2[b]
                     r = None
-                    if kind == "construct":
+                    if kind == "identity":
+                        r = PoseSE2.identity()
+                        res.probe("identity_constructed")
+                        res.n_checks += 1
+                        if np.array(r).tobytes() != np.zeros(3).tobytes():
+                            V(i, "identity", "PoseSE2.identity() returned %s" % np.array(r).tolist())
+                            break
+                        ok = True
+                        E, B = Fraction(0), 8 * EPS * 2 * math.pi
+                    elif kind == "construct":
                         x, y, th = xfl(op["v"])
                         if abs(th) > 1e3:
                             res.probe("big_angle")
@@ -344,19 +370,34 @@ class C11(OptEngineBase):
                         d = xfl(op["d"])
                         if abs(d[2]) > 1e3:
                             res.probe("big_angle")
-                        if kind == "boxplus":
-                            r = pa + np.array(d, dtype=np.float64)
-                        else:
-                            r = pa
-                            keep = np.array(pa, copy=True)
-                            if op.get("with_pose"):
-                                r += PoseSE2(d[:2], d[2])
-                                d = [d[0], d[1], float(PoseSE2(d[:2], d[2])[2])]
+                        dkind = op.get("dkind", "fresh")
+                        keep = np.array(pa, copy=True)
+                        try:
+                            if kind == "boxplus":
+                                r = pa + operand(d, dkind, buf2)
                             else:
-                                r += np.array(d, dtype=np.float64)
-                            if keep.tobytes() != np.array(pool2[a]).tobytes():
-                                V(i, "iadd-mutated-operand", "p += d changed the operand in place")
-                                break
+                                r = pa
+                                if op.get("with_pose"):
+                                    r += PoseSE2(d[:2], d[2])
+                                    d = [d[0], d[1], float(PoseSE2(d[:2], d[2])[2])]
+                                else:
+                                    r += operand(d, dkind, buf2)
+                        except (NotImplementedError, TypeError):
+                            if dkind in ("list", "tuple"):
+                                res.probe("operand_type_refused")
+                                if keep.tobytes() != np.array(pool2[a]).tobytes():
+                                    V(i, "iadd-mutated-operand", "a refused p += d still changed the operand")
+                                    break
+                                continue
+                            raise
+                        if dkind == "buffer":
+                            res.probe("increment_buffer_reused")
+                        if keep.tobytes() != np.array(pool2[a]).tobytes():
+                            V(i, "iadd-mutated-operand", "p + d / p += d changed the operand in place")
+                            break
+                        if not isinstance(r, PoseSE2):
+                            V(i, "result-type", "p [+] d returned a %s, not a PoseSE2" % type(r).__name__)
+                            break
                         tol = 8 * EPS * (abs(ta) + abs(d[2]) + 2 * math.pi)
                         ok = check2(i, r, Fraction(ta) + Fraction(d[2]), tol, Ea + Fraction(d[2]), Ba + tol, "p [+] d")
                         E, B = Ea + Fraction(d[2]), Ba + tol
@@ -436,7 +477,16 @@ class C11(OptEngineBase):
                 else:
                     pa, pb = pool3[a], pool3[b]
                     ba, bb = m3[a], m3[b]
-                    if kind == "construct":
+                    if kind == "identity":
+                        r = PoseSE3.identity()
+                        res.probe("identity_constructed")
+                        res.n_checks += 1
+                        if np.array(r).tobytes() != np.array([0.0, 0.0, 0.0, 0.0, 0.0, 0.0, 1.0]).tobytes():
+                            V(i, "identity", "PoseSE3.identity() returned %s" % np.array(r).tolist())
+                            break
+                        beta = 4 * EPS
+                        ok = True
+                    elif kind == "construct":
                         vals = xfl(op["v"])
                         r = PoseSE3(vals[:3], vals[3:])
                         beta = 4 * EPS
@@ -456,15 +506,30 @@ class C11(OptEngineBase):
                             res.probe("boxplus_norm_gt1_branch")
                         elif rn == 1.0:
                             res.probe("boxplus_norm_eq1")
-                        if kind == "boxplus":
-                            r = pa + d
-                        else:
-                            r = pa
-                            keep = np.array(pa, copy=True)
-                            r += d
-                            if keep.tobytes() != np.array(pool3[a]).tobytes():
-                                V(i, "iadd-mutated-operand", "p += d changed the operand in place")
-                                break
+                        dkind = op.get("dkind", "fresh")
+                        keep = np.array(pa, copy=True)
+                        try:
+                            if kind == "boxplus":
+                                r = pa + operand(d, dkind, buf3)
+                            else:
+                                r = pa
+                                r += operand(d, dkind, buf3)
+                        except (NotImplementedError, TypeError):
+                            if dkind in ("list", "tuple"):
+                                res.probe("operand_type_refused")
+                                if keep.tobytes() != np.array(pool3[a]).tobytes():
+                                    V(i, "iadd-mutated-operand", "a refused p += d still changed the operand")
+                                    break
+                                continue
+                            raise
+                        if dkind == "buffer":
+                            res.probe("increment_buffer_reused")
+                        if keep.tobytes() != np.array(pool3[a]).tobytes():
+                            V(i, "iadd-mutated-operand", "p + d / p += d changed the operand in place")
+                            break
+                        if not isinstance(r, PoseSE3):
+                            V(i, "result-type", "p [+] d returned a %s, not a PoseSE3" % type(r).__name__)
+                            break
                         beta = bmul(ba, extra=12 * EPS)
                         ok = check3(i, r, beta, "p [+] d (|d_rot|=%r)" % rn, qnorm(pa), 12 * EPS)
                     elif kind == "copy":
@@ -587,6 +652,12 @@ class C11(OptEngineBase):
         """A small graph around pool poses; run the optimizer; return [(slot, pose[, beta])] or None if not judged."""
         slots = op["slots"]
         verts = [Vertex(k, pool[s].copy()) for k, s in enumerate(slots)]
+        if op.get("identity_vertex") and len(verts) >= 2:
+            # a free vertex whose initial guess is the object returned by identity() (not a copy of it)
+            verts[-1].pose = PoseSE2.identity() if t == "SE2" else PoseSE3.identity()
+            res.probe("identity_object_as_vertex_pose")
+        start_norms = [qnorm(v.pose) for v in verts] if t == "SE3" else None
+        unit_start = [k == len(verts) - 1 and bool(op.get("identity_vertex")) for k in range(len(verts))]
         n = 3 if t == "SE2" else 6
         lcg = (i * 2654435761 + 97) & 0xFFFFFFFF
 
@@ -623,7 +694,8 @@ class C11(OptEngineBase):
             return None
         if t == "SE2":
             return [(s, v.pose) for s, v in zip(slots, g._vertices)]
-        return [(s, v.pose, None if model[s] is None else 4 * EPS + abs(qnorm(pool[s]) - 1.0), qnorm(pool[s])) for s, v in zip(slots, g._vertices)]
+        return [(s, v.pose, (None if (model[s] is None and not unit_start[k]) else 4 * EPS + abs(start_norms[k] - 1.0)), start_norms[k])
+                for k, (s, v) in enumerate(zip(slots, g._vertices))]
 
     def shrink_moves(self, case):
         return []
